@@ -120,7 +120,7 @@ def rule_replay(name):
         return {"case": ["cli", "gen", 1, None, False], "what": bad[0]} if bad else None
     if name.startswith("get_functions_and_classes/"):
         # up to 8 entries: the last three have a private, a lower-case and a one-letter name
-        for case in (("class", "{name}Gen", 2, None, False), ("class", "Cfg{name}", 8, None, False), ("class", "{name}", 8, None, False), ("argparse", "{name}Gen", 2, None, False)):
+        for case in (("class", "{name}Gen", 2, None, False), ("class", "Cfg{name}", 12, None, False), ("class", "{name}", 12, None, False), ("argparse", "{name}Gen", 2, None, False)):
             bad = [w for k, w in gen_case(case) if k != "raises"]
             if bad:
                 return {"case": list(case), "what": bad[0]}
@@ -139,7 +139,8 @@ def hoist_replay():
 # ---------------------------------------------------------------------------------------------------- bounded
 
 def class_src(i):
-    n = ("Alpha", "Beta", "Gamma", "Delta", "Eps", "_Hidden", "lower_case", "X")[i]
+    # the last names are a private one, a lower-case one, a one-letter one, and names of builtins (legal class names)
+    n = ("Alpha", "Beta", "Gamma", "Delta", "Eps", "_Hidden", "lower_case", "X", "Warning", "format", "id", "type")[i]
     return 'class %s(object):\n    """\n    %s conf\n\n    :cvar a%d: the a\n    :cvar b: the b\n    """\n\n    a%d: int = %d\n    b: Optional[str] = None\n' % (n, n, i, i, i + 1), n
 
 
@@ -247,6 +248,8 @@ def bounded(tier):
     emits = ["class", "argparse", "json_schema", "sqlalchemy", "sqlalchemy_table"]
     cases = list(itertools.product(emits, ("{name}Gen", "Cfg{name}"), (1, 2, 4) if tier == "quick" else (1, 2, 3, 4, 5, 8), (None, "import os\n", '"""Module doc"""\n', "print('generated')\n"), (False, True, "future")))
     cases = [c for c in cases if not (c[3] and not c[4])]  # --prepend only matters together with --imports-from-file
+    # the identity template over every kind of name (private, lower-case, one letter, names of builtins)
+    cases += [(e_, "{name}", 12, None, False) for e_ in (emits if tier == "thorough" else ["class", "json_schema"])]
     res = common.pmap(gen_case, cases)
     fails, raised = {}, 0
     for c, r in zip(cases, res):
@@ -289,7 +292,7 @@ def main(tier, write_baseline=False):
         n, raised, fails = bounded(tier)
         run.bounded.append({
             "name": "gen over an option matrix + the CLI guard on an existing file (bounded, NOT counted as proved)",
-            "bound": "parse kind class x emit {class, argparse, json_schema, sqlalchemy, sqlalchemy_table} x 2 name templates x 1..%d symbols x prepend {none, import, docstring, expression statement} x imports-from-file {off, typing import, __future__ import}, import inference off; 3 CLI runs onto an existing file (plain, ./-spelled and ~-spelled path). %d runs raised (out of domain: function/pydantic emit and import inference crash on the pinned tree)" % (4 if tier == "quick" else 5, raised),
+            "bound": "parse kind class x emit {class, argparse, json_schema, sqlalchemy, sqlalchemy_table} x 2 name templates x 1..%d symbols (+ the identity template over 12 names incl. private / lower-case / builtin names) x prepend {none, import, docstring, expression statement} x imports-from-file {off, typing import, __future__ import}, import inference off; 3 CLI runs onto an existing file (plain, ./-spelled and ~-spelled path). %d runs raised (out of domain: function/pydantic emit and import inference crash on the pinned tree)" % (4 if tier == "quick" else 5, raised),
             "rule": "one gen call per option combination; non-trivial = gen returns",
             "evaluations": n, "distinct_nontrivial": n - raised,
             "failures": [{"kind": k[0], "emit": k[1], "what": v[1][:300]} for k, v in list(fails.items())[:5]],
